@@ -19,7 +19,7 @@ RULE = ("(a) every fault site (C12 matrix + list/tuple/number given to String an
         "lists nested to 6; (c) CSV faults: empty file, header only, ragged rows, non-numeric cells, missing column, duplicate "
         "headers, quoted newlines, NUL bytes, non-UTF-8 bytes, 1 MB field, nan/inf/1e400 cells; (d) open() raising at the n-th call; "
         "(e) mismatched shapes / weights / empty lists; distinct by (class, fault/edit kind, command, outcome class)")
-REQUIRED_COUNTERS = ["boundary_outcomes_recorded", "mpilot_errors_seen", "cli_runs_checked", "error_messages_rendered", "io_faults_injected", "csv_faults_run", "text_corruptions_run", "cli_subprocess_runs", "netcdf_faults_run", "api_built_fault_models"]
+REQUIRED_COUNTERS = ["boundary_outcomes_recorded", "mpilot_errors_seen", "cli_runs_checked", "error_messages_rendered", "io_faults_injected", "csv_faults_run", "text_corruptions_run", "cli_subprocess_runs", "netcdf_faults_run", "api_built_fault_models", "api_object_reference_models"]
 ASSUMPTIONS = ["SyntaxError vs MPilotError for malformed text: either is allowed", "command files that are not valid UTF-8, KeyboardInterrupt and MemoryError are out of scope",
                "the CLI's behaviour for SyntaxError is not specified by the property and not judged"]
 
@@ -105,6 +105,11 @@ def cases(ctx):
     for i in range(ctx.n(300, 15000)):
         m = models.gen_model(rng, n_ops=rng.randint(1, 4), sinks=True)
         yield {"kind": "io", "model": m, "nth": rng.randint(1, 4), "exc": rng.choice(["PermissionError", "OSError", "IsADirectoryError", "FileNotFoundError"])}
+    # models built through add_command with Command *objects* as result arguments: the program's own commands, stand-alone
+    # finished commands holding data (as the repository's tests build them), commands of another Program
+    for i in range(ctx.n(200, 10000)):
+        m = models.gen_model(rng, n_ops=rng.randint(1, 6), sinks=True)
+        yield {"kind": "apiobj", "model": m, "mode": ["own", "standalone", "other-program", "standalone"][i % 4], "rseed": rng.randrange(10 ** 9)}
     # (e) run-time faults through API and CLI
     for i in range(ctx.n(300, 15000)):
         yield {"kind": "runtime", "fault": rng.choice(["shape", "shape", "weights", "empty", "k-too-big", "bad-direction", "bad-truest", "dup-raw", "len-mismatch", "equal-thresholds"]),
@@ -245,9 +250,58 @@ def _cli(ctx, text, d, tag, detail, expect_error=True, api_exc=None, api_dir=Non
             ctx.fail("%s:cli-message-differs" % tag, dict(detail, want=first[:200], stderr=stderr[-400:]))
 
 
+class _Outcome(object):
+    exc, stage = None, "done"
+
+
+def run_apiobj(ctx, case):
+    import copy
+    import numpy
+    from mpilot.program import Program
+    from mpilot.commands import Command
+    model, mode = case["model"], case["mode"]
+    rng = random.Random(case["rseed"])
+    d = ctx.scratch()
+    models.write_table(model["table"], d)
+    ctx.count("api_object_reference_models")
+    ctx.feature(("apiobj", mode, len(model["commands"])))
+    b = _Outcome()
+    objs = {}
+    try:
+        b.stage = "load"
+        prog = Program(libraries=arr.CSV_LIBS, working_dir=d)
+        other = Program(libraries=arr.CSV_LIBS, working_dir=d)
+        for c in model["commands"]:
+            args = copy.deepcopy(c["args"])
+            if c["cmd"] == "EEMSRead" and mode == "standalone":
+                col = model["table"]["cols"][args["InFieldName"]]
+                a = numpy.ma.array(col["data"], dtype="int64" if col["integer"] else "float64")
+                if model["table"]["missing"] is not None:
+                    a = numpy.ma.masked_equal(a, model["table"]["missing"])
+                cmd = Command(c["result"])
+                cmd.is_finished = True
+                cmd._result = a
+                objs[c["result"]] = cmd
+                continue
+            target = other if (c["cmd"] == "EEMSRead" and mode == "other-program") else prog
+            for k, v in list(args.items()):
+                if k in ("InFieldName", "A", "B") and isinstance(v, str) and v in objs and c["cmd"] != "EEMSRead" and rng.random() < 0.8:
+                    args[k] = objs[v]
+                elif k in ("InFieldNames", "OutFieldNames") and isinstance(v, list):
+                    args[k] = [objs[x] if x in objs and rng.random() < 0.8 else x for x in v]
+            target.add_command(target.find_command_class(c["cmd"]), c["result"], args)
+            objs[c["result"]] = target.commands[c["result"]]
+        b.stage = "run"
+        prog.run()
+        b.stage = "done"
+    except Exception as e:
+        b.exc = e
+    _classify(ctx, b, "api-objects:%s" % mode, {"mode": mode, "commands": [(c["result"], c["cmd"]) for c in model["commands"]]})
+
+
 def run_case(ctx, case):
     k = case["kind"]
-    return {"fault": run_fault, "text": run_text, "csv": run_csv, "io": run_io, "runtime": run_runtime, "nc": run_nc}[k](ctx, case)
+    return {"fault": run_fault, "text": run_text, "csv": run_csv, "io": run_io, "runtime": run_runtime, "nc": run_nc, "apiobj": run_apiobj}[k](ctx, case)
 
 
 def run_fault(ctx, case):
